@@ -155,6 +155,11 @@ func init() {
 			if c.Idx >= tierN(c.Tier, 1600, 40000) {
 				return linCase(c, "C05")
 			}
+			if c.Idx%12 == 7 {
+				// the table applies to what the runner holds after a restart as well: jobs loaded from the store (in whatever
+				// state they were persisted) occupy neither slots nor wait-list places
+				return simpleCase(c, drv.PreparedStoreCase(c.Seed, c.TmpDir), 100)
+			}
 			o := admissionOpts(c.Idx + 3)
 			o.WSchedule, o.WFinish, o.WCancel, o.WFire, o.WStopRel, o.WRead = 48, 20, 16, 10, 4, 1
 			if c.Idx%6 == 5 {
@@ -673,6 +678,10 @@ func init() {
 				return simpleCase(c, drv.RunBinaryCase(seed, bin, c.TmpDir, k%2 == 1), 1)
 			}
 			k := c.Idx - nPersist - nBin
+			if k%20 == 9 {
+				// shutdown of a runner that was restarted on a store holding jobs in every persisted state
+				return simpleCase(c, drv.PreparedStoreCase(c.Seed, c.TmpDir), 50)
+			}
 			if k%20 == 19 {
 				// escalation: a forced shutdown while a graceful one is still waiting
 				return simpleCase(c, drv.RunShutdownDirectedCase(c.Seed, 1), 50)
